@@ -65,7 +65,7 @@ BUILTIN_NAMES = {
     "FileNotFoundError", "NotImplementedError", "AssertionError", "Exception", "enumerate", "open", "print",
     "dict", "list", "tuple", "sorted", "type", "object", "NotImplemented", "set", "zip", "any", "all", "sum",
     "hex", "repr", "id", "divmod", "property", "staticmethod", "classmethod", "iter", "next", "__name__",
-    "getattr", "setattr",
+    "getattr", "setattr", "slice", "map", "frozenset",
 }
 
 
@@ -339,6 +339,9 @@ class InterpBase:
             cenv = Env()
             for n2, v2 in ns.items():
                 cenv.vars[n2] = v2
+            # inside the class body the functions defined there are plain names (dispatch tables built at class level)
+            for mname, mf in c.methods.items():
+                cenv.vars.setdefault(mname, T("func", mf.qual))
             for name, expr in c.consts.items():
                 self.quiet += 1
                 try:
@@ -599,6 +602,8 @@ class InterpBase:
             hi = self.ev(e.slice.upper, env, mod, fn) if e.slice.upper else NONE
             return self.do_slice(base, lo, hi, env, e)
         i = self.ev(e.slice, env, mod, fn)
+        if i.k == "sliceobj":
+            return self.do_slice(base, i.a[0], i.a[1], env, e)
         return self.do_index(base, i, env, e)
 
     # ---- byte strings under construction: positions resolved through the item list
